@@ -355,6 +355,27 @@ def cog_rules(F, R, tier):
                 if rr == {'<', '>'}:
                     guard = True
                 zero_branch = without == ('some', lit(0.0)) or (without == lit(0.0) and ('some', x) in set(subterms(out_t)))
+    if not (guard and zero_branch):
+        # the same guard spelled with an early return: every exit that stores the ratio has `denominator != 0` on its path, and
+        # an exit with `denominator == 0` on its path stores 0
+        g2 = z2 = False
+        bad2 = False
+        for ex in m.up_exits:
+            t_ = ex.fields.get(cog_out)
+            if t_ is None or t_ == ('in', cog_out):
+                continue
+            rels = [relation(c, den_t, lit(0.0)) for c in ex.pc if isinstance(c, tuple) and c and c[0] != 'inloop']
+            rels = [r_ for r_ in rels if r_ is not None]
+            if ratio in set(subterms(t_)):
+                if {'<', '>'} in rels and not any(isinstance(y, tuple) and y and y[0] == 'phi' and ratio in set(subterms(y)) for y in subterms(t_)):
+                    g2 = True
+                else:
+                    bad2 = True
+            elif {'='} in rels:
+                z2 = t_ == ('some', lit(0.0))
+                bad2 = bad2 or not z2
+        if g2 and z2 and not bad2:
+            guard = zero_branch = True
     R.ob('COG-G', 'CenterOfGravity', guard and zero_branch, 'ratio formed exactly when the denominator is non-zero (either sign), 0 reported otherwise' if guard and zero_branch else
          'the ratio is not formed for every non-zero denominator, or the zero-denominator branch does not report 0', v.file)
 
